@@ -885,6 +885,179 @@ def search(ctx, recs, fresh_status):
     return patterns
 
 
+
+# ---------------------------------------------------------------------------
+# dagger / invert against the MATHEMATICAL adjoint (independent reference)
+
+FULL_HELPER = r"""
+def full(g, n):
+    # full operator of a gate from its local matrix (independent of the simulation engine)
+    m = np.asarray(g.matrix(nb)); ts = list(g.target_qubits) if g.is_controlled_by else list(g.qubits)
+    cs = list(g.control_qubits) if g.is_controlled_by else []
+    N = 2**n; U = np.zeros((N, N), complex)
+    for i in range(N):
+        bi = [(i >> (n-1-q)) & 1 for q in range(n)]
+        if not all(bi[c] for c in cs): U[i, i] = 1; continue
+        li = int(''.join(str(bi[t]) for t in ts), 2)
+        for lj in range(2**len(ts)):
+            bj = list(bi)
+            for p, t in enumerate(ts): bj[t] = (lj >> (len(ts)-1-p)) & 1
+            U[i, int(''.join(map(str, bj)), 2)] = m[li, lj]
+    return U
+"""
+
+
+def adjoint_search(ctx, recs):
+    """for every parametrised class (generic, non-symmetric matrix blocks for the matrix-valued
+    ones), plain and under 1/2 controls, before and after an update through every route:
+    `gate.dagger()` and `Circuit.invert()` must be the conjugate transpose of the gate's own
+    CURRENT full operator (local matrix embedded and controlled by vlib.qgates, not by qibo)."""
+    from qibo import Circuit
+
+    nb = qgates.np_backend()
+    rnd = ctx.rng
+    bad = {}
+    ncases = 0
+    for key, rec in recs.items():
+        n = rec.n
+        A, B = distinct_values(rec, rnd, 2)
+        steps = [s for s in make_steps(rec, B, rnd) if s.name.startswith("upd:")]
+        variants = [("", lambda g: g), ("controlled_by1", lambda g: g.controlled_by(*ns()["free"](g, n, 1))),
+                    ("controlled_by2", lambda g: g.controlled_by(*ns()["free"](g, n, 2)))]
+        for vname, vf in variants:
+            for st in [None] + steps:
+                def mk(vf=vf, st=st):
+                    g = vf(rec.make(A, True))
+                    return st.apply(g) if st is not None else g
+                try:
+                    g = mk()
+                    U = qgates.gate_full_matrix(g, n)
+                except Exception:  # noqa: BLE001 — e.g. a class with class-level controls refuses controlled_by
+                    continue
+                ncases += 1
+                ctx.case(("adjoint", key, vname, st.name if st else "construct"))
+                results = {}
+                try:
+                    results["dagger"] = qgates.gate_full_matrix(mk().dagger(), n)
+                except Exception as e:  # noqa: BLE001
+                    results["dagger"] = e
+                try:
+                    c = Circuit(n)
+                    c.add(mk())
+                    results["circuit_unitary"] = np.asarray(c.unitary(nb)).conj().T
+                    results["circuit_invert"] = np.asarray(c.invert().unitary(nb))
+                    results["circuit_invert_invert"] = np.asarray(c.invert().invert().unitary(nb)).conj().T
+                except Exception as e:  # noqa: BLE001
+                    results.setdefault("circuit_invert", e)
+                for what, got in results.items():
+                    ok = not isinstance(got, Exception) and got.shape == U.shape and np.allclose(got, U.conj().T, atol=1e-9)
+                    if ok:
+                        continue
+                    hname = (vname + ">" if vname else "") + ("update" if st else "construct")
+                    k = f"adjoint:{what}:{key}" if what != "circuit_unitary" else f"adjoint:embedding:{key}"
+                    if k in bad:
+                        continue
+                    ctrl = {"": "", "controlled_by1": f"g = g.controlled_by(*free(g, {n}, 1))\n", "controlled_by2": f"g = g.controlled_by(*free(g, {n}, 2))\n"}[vname]
+                    code = (PRELUDE + FULL_HELPER + f"\ng = {rec.code(A, True)}\n" + ctrl + (st.code + "\n" if st else "")
+                            + f"U = full(g, {n})\n"
+                            + {"dagger": f"V = full(g.dagger(), {n})\n",
+                               "circuit_invert": f"V = np.asarray(circ(g, {n}).invert().unitary(nb))\n",
+                               "circuit_invert_invert": f"V = np.asarray(circ(g, {n}).invert().invert().unitary(nb)).conj().T\n",
+                               "circuit_unitary": f"V = np.asarray(circ(g, {n}).unitary(nb)).conj().T\n"}[what]
+                            + "print(np.round(V, 6)); print(np.round(U.conj().T, 6))\nassert np.allclose(V, U.conj().T, atol=1e-9)\n")
+                    bad[k] = True
+                    ctx.fail(k, f"{what} of {rec.code(A, True)} ({hname}) is not the conjugate transpose of the gate's current operator"
+                             + (f": raises {type(got).__name__}: {got}" if isinstance(got, Exception) else ""),
+                             code, broken=["C06_search_adjoint"])
+    ctx.stat("adjoint_cases", ncases)
+    ctx.ob("C06_search_adjoint", not bad, "search", f"{len(bad)} class/view pairs are not the adjoint" if bad else "")
+
+
+# ---------------------------------------------------------------------------
+# parameter_shift for EVERY parametrised class: refuse, or return the derivative
+
+
+def shift_all_classes(ctx, recs):
+    """a class either has no two-term rule (`parameter_shift` raises NotImplementedError) or the
+    number returned is the derivative of the expectation value (Richardson central difference of
+    the real expectation function, 1e-6).  Classes that refuse today are probed too, so that a
+    future `generator_eigenvalue` is checked the day it appears."""
+    from qibo import Circuit, hamiltonians
+    from qibo.derivative import parameter_shift
+
+    nb = qgates.np_backend()
+    G = qgates.gates_module()
+    rnd = ctx.rng
+    bad = 0
+    accepted = []
+    for key, rec in recs.items():
+        n = rec.nq + 1
+        for trial in range(3 if ctx.thorough else 2):
+            vals = rec.values(rnd)
+            a, b, c0 = (round(rnd.uniform(-2, 2), 4) for _ in range(3))
+            qs = rnd.sample(range(n), rec.nq)
+            q2 = n - 1 - qs[0]
+            rs = np.random.RandomState(rnd.randrange(2**31))
+            m = rs.randn(2**n, 2**n) + 1j * rs.randn(2**n, 2**n)
+            hm = (m + m.conj().T) / 2
+            psi = rs.randn(2**n) + 1j * rs.randn(2**n)
+            psi /= np.linalg.norm(psi)
+
+            def build(slots):
+                c = Circuit(n)
+                c.add(G.RY(qs[0], a))
+                c.add(G.RX(q2, b))
+                c.add(rec.make(slots, True, qs))
+                c.add(G.RY(qs[-1], c0))
+                return c
+
+            try:
+                circ = build(vals)
+            except Exception:  # noqa: BLE001
+                continue
+            ham = hamiltonians.Hamiltonian(n, hm, backend=nb)
+            ctx.case(("shift-class", key, trial))
+            try:
+                got = parameter_shift(circ, ham, 2, initial_state=psi.copy())
+            except NotImplementedError:
+                ctx.stat("shift_class_refuses")
+                continue
+            except Exception as e:  # noqa: BLE001 — multi-parameter gates break the array arithmetic of the rule
+                ctx.stat("shift_class_raises_" + type(e).__name__)
+                continue
+            if key not in accepted:
+                accepted.append(key)
+            scalar = [i for i, v in enumerate(vals) if not isinstance(v, np.ndarray)]
+
+            def f(t):
+                sl = [v + t if i in scalar else v for i, v in enumerate(vals)]
+                st = np.asarray(nb.execute_circuit(build(sl), initial_state=psi.copy()).state())
+                return float(np.real(st.conj() @ hm @ st))
+
+            try:
+                h = 1e-2
+                d1 = (f(h) - f(-h)) / (2 * h)
+                d2 = (f(h / 2) - f(-h / 2)) / h
+                ref = (4 * d2 - d1) / 3
+            except Exception:  # noqa: BLE001 — shifted values outside the constructor's range
+                continue
+            restored = all(np.allclose(np.asarray(x, dtype=complex), np.asarray(y, dtype=complex), atol=1e-9)
+                           for x, y in zip(circ.get_parameters(), build(vals).get_parameters()))
+            if abs(got - ref) < 1e-6 and restored:
+                continue
+            bad += 1
+            pre = ("import numpy as np\nfrom qibo import Circuit, gates, hamiltonians\nfrom qibo.backends import NumpyBackend\nfrom qibo.derivative import parameter_shift\nnb = NumpyBackend()\n"
+                   f"c = Circuit({n})\nc.add(gates.RY({qs[0]}, {a!r}))\nc.add(gates.RX({q2}, {b!r}))\nc.add({rec.code(vals, True, qs)})\nc.add(gates.RY({qs[-1]}, {c0!r}))\n"
+                   f"hm = np.array({hm.tolist()})\npsi = np.array({psi.tolist()})\nham = hamiltonians.Hamiltonian({n}, hm, backend=nb)\n")
+            ctx.fail(f"parameter_shift:class:{rec.cls.name}",
+                     f"parameter_shift accepts a {rec.cls.name} gate and returns {got}; the derivative of the expectation value is {ref}"
+                     + ("" if restored else " (and the circuit's parameters are not restored)"),
+                     pre + "before = c.get_parameters()\ngot = parameter_shift(c, ham, 2, initial_state=psi.copy())\n"
+                     f"assert all(np.allclose(x, y) for x, y in zip(before, c.get_parameters()))\nassert abs(got - ({ref!r})) < 1e-6, got\n",
+                     expected=ref, observed=got, broken=["C06_search_shift_classes"])
+    ctx.stats["shift_classes_accepted"] = ",".join(accepted)
+    ctx.ob("C06_search_shift_classes", bad == 0, "search", f"{bad} accepted gates with a wrong derivative" if bad else "")
+
 # ---------------------------------------------------------------------------
 
 
@@ -932,6 +1105,8 @@ def run_suites(ctx):
     ctx.sample({"kind": "gate-table row", "class": "PRX", "fields": [f.name for f in next(r for r in rows if r.key == "PRX").fields],
                 "live": [f.name for f in next(r for r in rows if r.key == "PRX").live]})
     search(ctx, tr.recs, status)
+    adjoint_search(ctx, tr.recs)
+    shift_all_classes(ctx, tr.recs)
     ctx.trusted.append("the gate-table tracer tools/props/C06_gateobj.py (storage locations by differential construction, reads by poking one location at a time, "
                        "results observed through documented attributes); QV.Model.GateObj abstracts a method's result as a function of the locations it reads")
     ctx.notes.append("gate level: class table regenerated for every parametrised class (fields, 3-4 update routes x 5 encodings, 13 views, 8 producers incl. controlled_by with 1/2/3 controls with their identity fields and the specified kept slots (trainable flag), deep-copy sharing), "
